@@ -17,7 +17,7 @@ var apiIntrinsics map[string]intrinsicFn
 // API functions without side effects on the exploration (allowed inside merge attempts)
 var apiPure = map[string]bool{"vBool": true, "vU8": true, "vU16": true, "vU32": true, "vU64": true, "vI64": true, "vI32": true, "vInt": true,
 	"vBig": true, "vBytes": true, "vAssume": true, "vConcretize": true, "vF32": true, "vF64": true, "vSymbolic": true, "vThorough": true, "vAnd": true, "vOr": true, "vImplies": true, "vIte64": true,
-	"vBigLe": true, "vBigLt": true, "vBigEq": true, "vBigOr0": true, "vNilIf": true, "vEq": true, "vProtoSame": true}
+	"vBigLe": true, "vBigLt": true, "vBigEq": true, "vBigOr0": true, "vNilIf": true, "vEq": true, "vProtoSame": true, "vLockOrderConsistent": true}
 
 // API functions that must see maybe-nil pointers unresolved
 var apiKeepsSymbolicNil = map[string]bool{"vNilIf": true, "vEq": true, "vBigOr0": true}
@@ -369,6 +369,18 @@ func init() {
 		return BVConst(uint64(v), 64)
 	}
 	A["vProtoSame"] = apiProtoSame
+	// vLockOrderConsistent(): no two mutexes were acquired in both orders on this path (a lock-order inversion
+	// between two entry points that run in different goroutines is a potential deadlock). Natively always true.
+	A["vLockOrderConsistent"] = func(p *Path, fr *frame, fn *ssa.Function, args []Value, pos token.Pos) Value {
+		for e := range p.lockEdges {
+			parts := strings.SplitN(e, " -> ", 2)
+			if p.lockEdges[parts[1]+" -> "+parts[0]] {
+				p.note("lock-order inversion: " + e + " and back")
+				return tFalse
+			}
+		}
+		return tTrue
+	}
 	// vNilIf(c, p unsafe.Pointer) unsafe.Pointer : p, or nil when c holds - without forking
 	A["vNilIf"] = func(p *Path, fr *frame, fn *ssa.Function, args []Value, pos token.Pos) Value {
 		c := args[0].(*Term)
